@@ -103,3 +103,23 @@ Theorem C02_relation_implies_range : forall (K : Fld), FldOk K ->
   (v - p < 2 ^ N.of_nat bits)%N.
 Proof. exact relation_implies_promise_bound. Qed.
 Print Assumptions C02_relation_implies_range.
+
+(** The two sides of [C02_verifier_equiv] computed on a concrete DISHONEST proof (rationals; 2 bits x 2
+    commitments with a promise, 2 rounds, T = 2, every element arbitrary): they agree and are non-zero —
+    the definitions compute, and the equivalence is exercised off the honest-proof manifold. *)
+From Coq Require Import QArith Qcanon.
+From BP Require Import Base.QcInst.
+Local Open Scope nat_scope.
+Definition jH : Qc := q 2. Definition jGb := [q 3; q 5]. Definition jG := [q 7; q 11; q 13; q 17]. Definition jHs := [q 19; q 23; q 29; q 31].
+Definition jVs := [q 37; q 41]. Definition jprom : list (option N) := [Some 2%N; None].
+Definition jLR := [(q 43, q 47); (q 53, q 59)].
+Definition jlhs (w : Qc) := terms_msm QcF QcM (proof_terms QcF 2 jprom (mkVproof QcF [q 61; q 67] (q 71) (q 73)) (mkChals QcF (q 3) (q 5) [q 7; q 2] (q 11)) w)
+   jG jHs jVs jH jGb (q 79) (q 83) (q 89) (map fst jLR) (map snd jLR).
+Definition jrhs (w : Qc) := Qcmult w (spec_residual QcF QcM 2 jH jGb jG jHs jVs jprom (mkRproof QcF QcM (q 89) jLR (q 79) (q 83) (q 71) (q 73) [q 61; q 67]) (q 3) (q 5) [q 7; q 2] (q 11)).
+Example C02_ex_equiv_on_dishonest_proof : Qc_eq_bool (jlhs (q 9)) (jrhs (q 9)) = true /\ Qc_eq_bool (jlhs (q 9)) 0%Qc = false.
+Proof. split; vm_compute; reflexivity. Qed.
+Example C02_ex_premises_hold : jlhs (q 9) = jrhs (q 9).
+Proof.
+  apply (C02_verifier_equiv QcF QcF_ok QcM QcM_ok 2 1 jprom jH jGb jG jHs jVs (q 89) (q 79) (q 83) jLR (q 71) (q 73) [q 61; q 67] (q 3) (q 5) (q 11) (q 9) [q 7; q 2]);
+    try reflexivity; try (cbn; Lia.lia); try (cbn; discriminate); repeat constructor; cbn; discriminate.
+Qed.
